@@ -22,6 +22,54 @@ type c15Case struct {
 	// Stride > 2 (pt-line2 only): the line string is handed over in layout XYZ / XYZM / Layout(5)
 	// with distractor values in the extra ordinates
 	Stride int `json:"stride,omitempty"`
+	// Gen names a generated argument list instead of spelling it out: "longline/<n>/<k>" = the
+	// n-vertex line of c15LongLine with the query point beside the middle of segment k.
+	Gen string `json:"gen,omitempty"`
+}
+
+// c15LongLine: n vertices (4i, i mod 2), a slightly rippled line along the x axis.
+func c15LongLine(n int) []float64 {
+	out := make([]float64, 0, 2*n)
+	for i := 0; i < n; i++ {
+		out = append(out, float64(4*i), float64(i%2))
+	}
+	return out
+}
+
+// c15LongQuery is the query point for segment k of the long line: nearest to the interior of
+// segment k (distance < 3) and nearer to it than to every other segment.
+func c15LongQuery(k int) [2]float64 { return [2]float64{float64(4*k + 2), 3} }
+
+func c15GenV(gen string) []ref.F {
+	var n, k int
+	rev := false
+	if _, err := fmt.Sscanf(gen, "longline/%d/%d", &n, &k); err != nil {
+		if _, err := fmt.Sscanf(gen, "longlinerev/%d/%d", &n, &k); err != nil {
+			panic("c15: bad gen " + gen)
+		}
+		rev = true
+	}
+	q := c15LongQuery(k)
+	v := []ref.F{ref.F(q[0]), ref.F(q[1])}
+	line := c15LongLine(n)
+	for i := 0; i < n; i++ {
+		j := i
+		if rev {
+			j = n - 1 - i
+		}
+		v = append(v, ref.F(line[2*j]), ref.F(line[2*j+1]))
+	}
+	return v
+}
+
+// wide2 is the coordinate p handed over with extra ordinates after X and Y (the xy package reads
+// the first two ordinates of a coordinate of any dimension): k extras with values that depend on tag.
+func wide2(p ref.P3, k int, tag float64) geom.Coord {
+	out := geom.Coord{p.X, p.Y}
+	for i := 0; i < k; i++ {
+		out = append(out, tag+float64(i))
+	}
+	return out
 }
 
 func init() {
@@ -46,6 +94,9 @@ func co3(p ref.P3) geom.Coord { return geom.Coord{p.X, p.Y, p.Z} }
 func c15Exec(c *engine.Ctx, cs c15Case) {
 	c.Count("evaluations", 1)
 	v := cs.V
+	if cs.Gen != "" {
+		v = c15GenV(cs.Gen)
+	}
 	scale := 1.0
 	for _, x := range v {
 		if !math.IsNaN(float64(x)) {
@@ -54,7 +105,7 @@ func c15Exec(c *engine.Ctx, cs c15Case) {
 	}
 	tol := 1e-9 * scale
 	fail := func(what, desc string) {
-		c.Violate(cs.Mode+"/"+what, clipStr(fmt.Sprintf("%s; arguments %v", desc, v), 2500), "c15", cs)
+		c.Violate(cs.Mode+"/"+what, clipStr(fmt.Sprintf("%s; arguments %s%v", desc, cs.Gen, v), 2500), "c15", cs)
 	}
 	check := func(name string, got float64, exact2 *big.Rat) bool {
 		if math.IsNaN(got) {
@@ -77,6 +128,12 @@ func c15Exec(c *engine.Ctx, cs c15Case) {
 			exact2 = ref.PointSeg2(p, a, b)
 			ok = check("DistanceFromPointToLine", xy.DistanceFromPointToLine(co2(p), co2(a), co2(b)), exact2) &&
 				check("DistanceFromPointToLine(reversed)", xy.DistanceFromPointToLine(co2(p), co2(b), co2(a)), exact2)
+			// the same arguments as coordinates with extra ordinates that differ between the three
+			// (also between the two ends of a zero-length segment) and with different lengths
+			if ok {
+				ok = check("DistanceFromPointToLine(coordinates with extra ordinates)", xy.DistanceFromPointToLine(wide2(p, 1, -7), wide2(a, 2, 100), wide2(b, 2, 200)), exact2) &&
+					check("DistanceFromPointToLine(coordinates of different lengths)", xy.DistanceFromPointToLine(wide2(p, 0, 0), wide2(a, 1, 5), wide2(b, 3, 5)), exact2)
+			}
 			if ok && a != b {
 				// perpendicular distance to the infinite line
 				cr := ref.Cross(ref.P2{X: a.X, Y: a.Y}, ref.P2{X: b.X, Y: b.Y}, ref.P2{X: p.X, Y: p.Y})
@@ -89,7 +146,8 @@ func c15Exec(c *engine.Ctx, cs c15Case) {
 			exact2 = ref.SegSeg2(a, b, cc, d)
 			ok = check("DistanceFromLineToLine", xy.DistanceFromLineToLine(co2(a), co2(b), co2(cc), co2(d)), exact2) &&
 				check("DistanceFromLineToLine(swapped)", xy.DistanceFromLineToLine(co2(cc), co2(d), co2(a), co2(b)), exact2) &&
-				check("DistanceFromLineToLine(reversed)", xy.DistanceFromLineToLine(co2(b), co2(a), co2(d), co2(cc)), exact2)
+				check("DistanceFromLineToLine(reversed)", xy.DistanceFromLineToLine(co2(b), co2(a), co2(d), co2(cc)), exact2) &&
+				check("DistanceFromLineToLine(coordinates with extra ordinates)", xy.DistanceFromLineToLine(wide2(a, 1, 1), wide2(b, 1, 2), wide2(cc, 2, 3), wide2(d, 2, 4)), exact2)
 		case "pt-line2":
 			p := p2as3(v, 0)
 			n := len(v)/2 - 1
@@ -327,6 +385,48 @@ func c15Run(c *engine.Ctx) {
 			}
 		}
 	})
+	// very long line strings (beyond any block size a divided scan might use): the query point
+	// beside the middle of EVERY segment in turn, in both directions of the line. One library call
+	// per query against the exact distance to the three segments around it (all others are farther
+	// away by construction); a disagreement goes through c15Exec for the verdict over all segments.
+	longNs := []int{4099, 16390, 20001}
+	if c.Thorough() {
+		longNs = append(longNs, 32770, 65540)
+	}
+	c.Note("very_long_lines", fmt.Sprint(longNs))
+	for _, n := range longNs {
+		n := n
+		line := c15LongLine(n)
+		rline := make([]float64, len(line))
+		for i := 0; i < n; i++ {
+			rline[2*i], rline[2*i+1] = line[2*(n-1-i)], line[2*(n-1-i)+1]
+		}
+		at := func(i int) ref.P3 { return ref.P3{X: line[2*i], Y: line[2*i+1]} }
+		c.Parallel(n-1, func(k int) {
+			q := c15LongQuery(k)
+			p := ref.P3{X: q[0], Y: q[1]}
+			var ex *big.Rat
+			for j := k - 1; j <= k+1; j++ {
+				if j < 0 || j+1 >= n {
+					continue
+				}
+				if d2 := ref.PointSeg2(p, at(j), at(j+1)); ex == nil || d2.Cmp(ex) < 0 {
+					ex = d2
+				}
+			}
+			want := ref.SqrtRat(ex)
+			c.Count("evaluations", 1)
+			c.Count("very_long_line_queries", 1)
+			got := xy.DistanceFromPointToLineString(geom.XY, geom.Coord{q[0], q[1]}, line)
+			got2 := xy.DistanceFromPointToLineString(geom.XY, geom.Coord{q[0], q[1]}, rline)
+			if math.IsNaN(got) || !ref.AbsDiffLE(got, want, 1e-9*float64(4*n)) {
+				c15Exec(c, c15Case{Mode: "pt-line2", Gen: fmt.Sprintf("longline/%d/%d", n, k)})
+			}
+			if math.IsNaN(got2) || !ref.AbsDiffLE(got2, want, 1e-9*float64(4*n)) {
+				c15Exec(c, c15Case{Mode: "pt-line2", Gen: fmt.Sprintf("longlinerev/%d/%d", n, k)})
+			}
+		})
+	}
 	// 3D: long, nearly parallel segments on the grid up to 2^20 (crossing, touching or skew by a
 	// few lattice steps): the closest-approach parameters are badly conditioned there
 	type s3 struct{ a, b, p, q [3]float64 }
